@@ -16,6 +16,9 @@
 //	rand   random histories of 2..5 calls of any kind, operands drawn from new
 //	       inputs, re-used inputs and (slices of) earlier results
 //	wide   3..4 call chains at widths 9..33 (sampled values)
+//	shape  operand buses that hold the Compiler's constant wires, repeated
+//	       wires, the same bus twice (shapegen.go); the random histories take
+//	       such operands as well
 package main
 
 import (
@@ -349,6 +352,11 @@ func histJobs(cf *hxlib.CommonFlags, only string) []histJob {
 		}
 	}
 
+	// ---- shape: operand buses holding constant wires / repeated wires (shapegen.go)
+	for _, h := range shapeHistories(cf.Seed, thorough, next) {
+		add(h)
+	}
+
 	// ---- rand
 	nr := 160
 	if thorough {
@@ -554,7 +562,25 @@ func randomHistory(r *hxlib.Rng, thorough bool, salt int) *History {
 		return HSrc{K: len(inW) + s.idx, Lo: s.lo, Len: s.ln}
 	}
 	for _, pc := range calls {
-		m.call(pc.b.Name, pc.nz, pc.par, res(pc.x), res(pc.y), res(pc.w))
+		x, y, w := res(pc.x), res(pc.y), res(pc.w)
+		// operand shapes: constant wires, repeated wires, x op x (shapegen.go)
+		switch r.Intn(8) {
+		case 0:
+			x = shapeOperand(r, x)
+		case 1:
+			y = shapeOperand(r, y)
+		case 2:
+			x, y = shapeOperand(r, x), shapeOperand(r, y)
+		case 3:
+			if x.Len == y.Len {
+				y = x
+			}
+		case 4:
+			if w.Len > 0 {
+				w = shapeOperand(r, w)
+			}
+		}
+		m.call(pc.b.Name, pc.nz, pc.par, x, y, w)
 	}
 	return m.done()
 }
